@@ -35,8 +35,14 @@ impl<PN: PropertyName, VN: VariantName> Entry<PN, VN> {
         Ok(written)
     }
 
-    fn key_count(&self) -> Count<u8> {
-        (self.common.len() as u8 + self.variants.iter().map(|v| v.len() as u8).sum::<u8>()).into()
+    fn key_count(&self) -> IoResult<Count<u8>> {
+        let count = self.common.len() + self.variants.iter().map(|v| v.len()).sum::<usize>();
+        // The number of key info (properties, variant ids and paddings) is stored on one byte.
+        u8::try_from(count).map(Count::from).map_err(|_| {
+            std::io::Error::other(format!(
+                "Cannot store {count} key infos in a entry store. It is limited to 255"
+            ))
+        })
     }
 }
 
@@ -44,8 +50,14 @@ impl<PN: PropertyName, VN: VariantName> Serializable for Entry<PN, VN> {
     fn serialize(&self, ser: &mut Serializer) -> IoResult<usize> {
         let mut written = 0;
         written += ser.write_u16(self.entry_size)?;
-        written += ser.write_u8(self.variants.len() as u8)?;
-        written += self.key_count().serialize(ser)?;
+        let variant_count = u8::try_from(self.variants.len()).map_err(|_| {
+            std::io::Error::other(format!(
+                "Cannot store {} variants in a entry store. It is limited to 255",
+                self.variants.len()
+            ))
+        })?;
+        written += ser.write_u8(variant_count)?;
+        written += self.key_count()?.serialize(ser)?;
         written += self.common.serialize(ser)?;
         for variant in &self.variants {
             written += variant.serialize(ser)?;
